@@ -146,6 +146,9 @@ impl<'tcx> Cx<'tcx> {
     if let Some(e) = b.expr {
       o.push(("expr", self.expr(e)));
     }
+    if let hir::BlockCheckMode::UnsafeBlock(src) = b.rules {
+      o.push(("unsafe", J::s(format!("{:?}", src))));
+    }
     self.node("block", b.span, o)
   }
 
@@ -186,12 +189,14 @@ impl<'tcx> Cx<'tcx> {
         if !done {
           o.push(("callee", self.expr(f)));
         }
+        o.push(("fsp", J::s(span_str(tcx, f.span))));
         o.push(("args", J::Arr(args.iter().map(|a| self.expr(a)).collect())));
         self.node("call", e.span, o)
       }
-      K::MethodCall(seg, recv, args, _) => {
+      K::MethodCall(seg, recv, args, fn_span) => {
         let mut o = J::obj();
         o.push(("name", J::s(seg.ident.name.to_string())));
+        o.push(("fsp", J::s(span_str(tcx, *fn_span))));
         if let Some(did) = self.tr.type_dependent_def_id(e.hir_id) {
           self.callee_info(did, e.hir_id, &mut o);
         }
@@ -292,8 +297,9 @@ impl<'tcx> Cx<'tcx> {
         o.push(("base", self.expr(b)));
         self.node("field", e.span, o)
       }
-      K::Index(b, i, _) => {
+      K::Index(b, i, br_span) => {
         let mut o = J::obj();
+        o.push(("fsp", J::s(span_str(tcx, *br_span))));
         o.push(("base_ty", J::s(ty_head(tcx, self.tr.expr_ty_adjusted(b)))));
         if self.tr.is_method_call(e) {
           o.push(("overloaded", J::Bool(true)));
